@@ -29,6 +29,9 @@ def run(ck):
     decl_js.suite_corpus(ck)
     ck.stats['time.corpus_s'] = round(ck.elapsed(), 1)
     decl_js.suite_names(ck)
+    decl_js.suite_grid(ck)
+    decl_js.suite_attrs(ck)
+    ck.stats['time.families_s'] = round(ck.elapsed(), 1)
     decl_js.suite_generated(ck)
     ck.stats['time.suites_s'] = round(ck.elapsed(), 1)
     ck.assumptions.extend([
